@@ -109,6 +109,11 @@ def _num(o) -> Optional[Fraction]:
         if f != f or f in (float("inf"), float("-inf")):
             return None
         return Fraction(f)
+    if isinstance(o, (complex, numpy.complexfloating)):
+        c = complex(o)
+        if c.imag == 0 and c.real == c.real and c.real not in (float("inf"), float("-inf")):
+            return Fraction(c.real)  # a complex carrier of a real value (the model has no imaginary numbers)
+        return None
     return None
 
 
